@@ -23,7 +23,7 @@ N = {'quick': 4000, 'thorough': 60000}
 FUZZ_SECONDS = 180      # thorough tier: coverage-guided campaign over the same strategy and oracle (tools/fuzz.py)
 SHARDS = {'quick': 4, 'thorough': 16}
 
-FOREIGN = ['zz', 'yy']
+FOREIGN = ['zz', 'yy', 'func']      # 'func': the name validate / isvalid use for their own first parameter
 KINDS = ['function', 'method', 'classmethod', 'instance']
 FACES = ['plain', 'bound', 'other_instance', 'methodtype', 'partial0']
 
